@@ -189,6 +189,20 @@ theorem type_switch_as_modelled :
     (∀ fixed w op r, bitmapBinop fixed w op r .nonDuplex = some r) := by
   refine ⟨by decide, fun _ => rfl, fun _ _ => rfl, rfl, rfl, fun _ _ _ _ => rfl⟩
 
+/-- **API completeness.** Every method of the `Duplex` interface is an operation of the model; every exact provider
+(`bitmap32`, `bitmap64`, `threadSafeDuplex`) implements all of them and has no other method except the listed
+exempt one (`Iterator`); the one-way providers implement exactly `Simplex`; every type of package `cardinality` that
+has methods is one of these, a pinned combinator of commutative.go, or a listed exempt adapter. Regenerated from the
+source on every run: a new interface method, implementation method or type breaks this obligation. -/
+theorem api_complete : Facts.apiComplete Generated.C13.interfaces Generated.C13.implMethods = true := by decide
+
+/-- commutative.go: `DuplexCommutation.Contains` is membership in the union of its members and
+`CommutativeDuplexes.Contains` is "in some `or` commutation and in every `and` commutation", for all member sets. -/
+theorem commutative_contains (ors ands : List (List S)) (dc : List S) (v : Nat) :
+    (commContains dc v = true ↔ ∃ d ∈ dc, v ∈ d) ∧
+    (commDuplexesContains ors ands v = true ↔ (∃ dc ∈ ors, ∃ d ∈ dc, v ∈ d) ∧ (∀ dc ∈ ands, ∃ d ∈ dc, v ∈ d)) :=
+  ⟨commContains_iff, commDuplexesContains_iff⟩
+
 /-! ### the lock-level LTS -/
 
 /-- one call of a caller's program: method `name` of the duplex wrapper with mutex `recv`; `operand = some o` when
